@@ -33,7 +33,9 @@ def main():
         flags = [t for t in toks[1:] if re.match(r"-(std=|D|O|l|f|g|pthread|W)", t)]
         if not any(t.startswith("-std") for t in flags):
             flags.insert(0, "-std=c++17")
-    cmd = "%s %s -I include demo.cpp -o demo" % (cxx, " ".join(flags))
+    libs = [t for t in flags if t.startswith("-l")]
+    flags = [t for t in flags if not t.startswith("-l")]
+    cmd = "%s %s -I include demo.cpp -o demo %s" % (cxx, " ".join(flags), " ".join(libs))
     meta["demo_build"] = cmd
     # without the change
     rc, out = sh("git apply -R mutation.patch", wt)
